@@ -123,8 +123,8 @@ def failAll (res : Res) : List Nat → (Nat → Option Req) → (Nat → Option 
     match reqs w with
     | some q =>
       if q.result = none then
-        let (reqs', outs) := failAll res ws (upd reqs w (some { q with result := some res }))
-        (reqs', Out.deliver w res :: outs)
+        let fa := failAll res ws (upd reqs w (some { q with result := some res }))
+        (fa.1, Out.deliver w res :: fa.2)
       else failAll res ws reqs
     | none => failAll res ws reqs
 
@@ -137,8 +137,8 @@ def beginAll (reqs : Nat → Option Req) : List Nat → (Nat → Option Trx) →
     let live := match reqs w with
       | some q => !q.cancelled
       | none => false
-    let (txs', n', outs) := beginAll reqs ws (upd txs n (some ⟨.announce w, live⟩)) (n + 1)
-    (txs', n', if live then Out.send n (.announce w) :: outs else outs)
+    let ba := beginAll reqs ws (upd txs n (some ⟨.announce w, live⟩)) (n + 1)
+    (ba.1, ba.2.1, if live then Out.send n (.announce w) :: ba.2.2 else ba.2.2)
 
 /-- The context of request `r` is done: its announce transaction stops retransmitting. -/
 def killAnnounce (r : Nat) (txs : Nat → Option Trx) : Nat → Option Trx :=
@@ -177,8 +177,8 @@ def step (s : State) : In → State × List Out
       | some (.connecting tx o ws) =>
         if o = r then
           -- the connect ran under r's context: connectDone(err = context.Canceled)
-          let (reqs', outs) := failAll .canceled ws reqs
-          ({ s with reqs := reqs', txs := upd txs tx none, conns := upd s.conns q.dest none }, .deliver r .canceled :: outs)
+          let fa := failAll .canceled ws reqs
+          ({ s with reqs := fa.1, txs := upd txs tx none, conns := upd s.conns q.dest none }, .deliver r .canceled :: fa.2)
         else ({ s with reqs := reqs, txs := txs }, [.deliver r .canceled])
       | _ => ({ s with reqs := reqs, txs := txs }, [.deliver r .canceled])
   | .dgram none _ => (s, [])
@@ -198,11 +198,11 @@ def step (s : State) : In → State × List Out
       match s.conns d with
       | some (.connecting _ _ ws) =>
         if c = .good then
-          let (txs', n', outs) := beginAll s.reqs ws txs s.nextTx
-          ({ s with txs := txs', nextTx := n', conns := upd s.conns d (some .connected) }, outs)
+          let ba := beginAll s.reqs ws txs s.nextTx
+          ({ s with txs := ba.1, nextTx := ba.2.1, conns := upd s.conns d (some .connected) }, ba.2.2)
         else
-          let (reqs', outs) := failAll (.connectFailed c) ws s.reqs
-          ({ s with txs := txs, reqs := reqs', conns := upd s.conns d none }, outs)
+          let fa := failAll (.connectFailed c) ws s.reqs
+          ({ s with txs := txs, reqs := fa.1, conns := upd s.conns d none }, fa.2)
       | _ => ({ s with txs := txs }, [])
   | .tick tx =>
     match s.txs tx with
@@ -210,16 +210,16 @@ def step (s : State) : In → State × List Out
     | _ => (s, [])
   | .close =>
     if s.closed then (s, []) else
-    let (reqs', outs) := failAll .closed s.ids s.reqs
-    ({ s with reqs := reqs', txs := fun _ => none, conns := fun _ => none, closed := true }, outs)
+    let fa := failAll .closed s.ids s.reqs
+    ({ s with reqs := fa.1, txs := fun _ => none, conns := fun _ => none, closed := true }, fa.2)
 
 /-- Run a list of messages; outputs in order. -/
 def run (s : State) : List In → State × List Out
   | [] => (s, [])
   | i :: is =>
-    let (s', o) := step s i
-    let (s'', os) := run s' is
-    (s'', o ++ os)
+    let a := step s i
+    let b := run a.1 is
+    (b.1, a.2 ++ b.2)
 
 /-- Number of transactions below `n` for which a retransmission is scheduled. -/
 def liveCount (txs : Nat → Option Trx) : Nat → Nat
@@ -239,8 +239,13 @@ def stepSilentAbort (s : State) : In → State × List Out
     | none => (s, [])
     | some q =>
       if q.result ≠ none then (s, []) else
-      ({ s with reqs := upd s.reqs r (some { q with cancelled := true, result := some .canceled }),
-                txs := killAnnounce r s.txs }, [.deliver r .canceled])
+      let reqs := upd s.reqs r (some { q with cancelled := true, result := some .canceled })
+      let txs := killAnnounce r s.txs
+      match s.conns q.dest with
+      | some (.connecting tx o _) =>
+        -- the connect transaction's context is done (no retransmission), but nobody is told
+        ({ s with reqs := reqs, txs := if o = r then upd txs tx (some ⟨.connect q.dest, false⟩) else txs }, [.deliver r .canceled])
+      | _ => ({ s with reqs := reqs, txs := txs }, [.deliver r .canceled])
   | i => step s i
 
 end Rain.UdpShared
